@@ -23,9 +23,13 @@ class Injected(Exception):
     pass
 
 
+class InjectedBase(BaseException):
+    """aborts that are not Exception subclasses (KeyboardInterrupt, SystemExit, GeneratorExit, user-defined) take the same exit path"""
+
+
 def main():
     tier = common.tier()
-    nshards, nprogs = (16, 4) if tier == "quick" else (32, 60)
+    nshards, nprogs = (16, 3) if tier == "quick" else (32, 60)
     jobs = [dict(seed="%d/%s/%d" % (common.seed(), PROP, s), nprogs=nprogs) for s in range(nshards)]
     R = common.Run(PROP, "fault_enumeration", RULE)
     for job, res, err in shard.run_jobs("vf.checks.C08", "worker", jobs, timeout=3600, nproc=16):
@@ -37,7 +41,7 @@ def main():
     R.assumptions = ["an exception crossing an *open* _if/_while block does not end that region (DESIGN.md 6.5): only regions with an end event are judged",
                      "abort points = every LINE event of the generated code objects (statement starts), enumerated per program"]
     return R.finish(require_counters=("region_ends_judged", "injected_aborts", "inside_invariants_checked", "add_guard_calls",
-                                      "regions_left_by_exception"))
+                                      "regions_left_by_exception", "injected_base_exception_aborts", "guard_value_trace_pairs"))
 
 
 # ------------------------------------------------------------------------------------------------------------
@@ -319,6 +323,7 @@ class Failpoint:
         except ValueError:
             pass
         self.count = 0
+        self.base = False
         self.target = None
         self.fired = None
         self.mon.register_callback(self.TOOL, self.mon.events.LINE, self.cb)
@@ -328,10 +333,12 @@ class Failpoint:
         self.count += 1
         if self.target is not None and self.count == self.target:
             self.fired = line
-            raise Injected("injected at line event %d (source line %d)" % (self.count, line))
+            cls = InjectedBase if self.base else Injected
+            raise cls("injected at line event %d (source line %d)" % (self.count, line))
 
-    def arm(self, chunks, target):
+    def arm(self, chunks, target, base=False):
         self.count = 0
+        self.base = base
         self.target = target
         self.fired = None
         self.disarm()
@@ -371,7 +378,28 @@ def worker(job):
         if total is None:
             continue
         for k in range(1, total + 1):
-            execute(G, N, M, fp, R, prog, chunks, inputs, k, src)
+            execute(G, N, M, fp, R, prog, chunks, inputs, k, src, base=bool((k + n) % 2))
+        # the same program under other guard values must emit the same constraint system: the effective guard is the
+        # conjunction of the enclosing conditions as a *wire*, not only as a value
+        from vf import r1cs
+        ref_trace = None
+        nfix = 3
+        for trial in range(4):
+            ins = list(inputs)
+            if trial:
+                ins[nfix:] = [rnd.randint(0, 1) for _ in ins[nfix:]]
+            M.reset()
+            out = G.run_api(prog, ins, N, pre=lambda ns: ns.update({"__enter": M.enter, "__leave": M.leave, "__inside": lambda *a: None}), chunks=chunks)
+            if out.exc is not None:
+                continue
+            tr = r1cs.canon_trace(out.snap)
+            if ref_trace is None:
+                ref_trace = (ins, tr)
+            else:
+                R.count("guard_value_trace_pairs")
+                if tr != ref_trace[1]:
+                    R.violation("trace-depends-on-guard-values", "the same nested-region program emits different constraint systems for guard values %s and %s (%d vs %d events)" % (
+                        ref_trace[0][nfix:], ins[nfix:], len(ref_trace[1]), len(tr)), src=src, inputs=ins, abort_at=None)
         R.count("programs")
         R.count("abort_points_enumerated", total)
     # add_guard that itself raises must leave the triple untouched
@@ -387,18 +415,20 @@ def worker(job):
     return R.export()
 
 
-def execute(G, N, M, fp, R, prog, chunks, inputs, k, src):
+def execute(G, N, M, fp, R, prog, chunks, inputs, k, src, base=False):
     M.reset()
 
     def pre(ns):
         ns["__enter"], ns["__leave"], ns["__inside"] = M.enter, M.leave, M.inside
-    fp.arm(chunks, k)
+    fp.arm(chunks, k, base)
     try:
         out = G.run_api(prog, inputs, N, pre=pre, chunks=chunks)
     finally:
         total = fp.count
         fp.disarm()
-    injected = isinstance(out.exc, Injected)
+    injected = isinstance(out.exc, (Injected, InjectedBase))
+    if isinstance(out.exc, InjectedBase):
+        R.count("injected_base_exception_aborts")
     natural = out.exc is not None and not injected
     if k is not None and not injected:
         R.count("injection_point_not_reached")
